@@ -575,6 +575,192 @@ fn cov_families(r: &mut Rng, thorough: bool, codes: &[u16], lines: &mut Vec<Stri
     }
 }
 
+/// BEGIN t3. Families for the release rule of chords v2 ("released per the configured release rule
+/// and no later than the release of all participants"), each aimed at a piece of keyberon/src/chord.rs
+/// that the marker families did not exercise in a state where it matters.
+fn release_rule_families(r: &mut Rng, thorough: bool, codes: &[u16], lines: &mut Vec<String>) {
+    // (R1) `next_coord` wraps after 50 hand-outs (two per two-key chord: one when the first key
+    // leaves a single candidate, one at completion) WHILE an earlier chord is still held: the
+    // wrapped coordinate must not be the one the held chord occupies, or releasing the new chord
+    // releases the held one too
+    for (fr_held, fr_tap) in [(false, true), (false, false), (true, true)] {
+        let t = Table { n: 4, masks: vec![0b0011, 0b1100], timeout: 30 };
+        let fr = (fr_held as u32) | ((fr_tap as u32) << 1);
+        let cfg = v2_cfg(&t, fr, 0, Some(0), None);
+        let ns: &[usize] = if thorough { &[12, 24, 25, 26, 49, 50, 51, 75] } else { &[24, 25, 26, 50] };
+        for n in ns {
+            let mut h = vec![HEv::Press(0, codes[0]), HEv::Press(0, codes[1]), HEv::Tick(40)];
+            for _ in 0..*n {
+                h.push(HEv::Press(0, codes[2]));
+                h.push(HEv::Press(0, codes[3]));
+                h.push(HEv::Tick(3));
+                h.push(HEv::Release(0, codes[3]));
+                h.push(HEv::Release(0, codes[2]));
+                h.push(HEv::Tick(8));
+            }
+            h.push(HEv::Tick(30));
+            h.push(HEv::Release(0, codes[1]));
+            h.push(HEv::Tick(2));
+            h.push(HEv::Release(0, codes[0]));
+            h.push(HEv::Tick(400));
+            lines.push(mk_line("LAY", false, &cfg, &h));
+        }
+    }
+    // (R2) virtual-key events (row 1) whose INDEX equals the key code of a chord participant, while
+    // the chords-v2 cool-down forwards the queue (`drain_inputs`, first branch): keys esc 1 2 3 have
+    // the codes 1..4, the virtual keys the indices 0..4
+    {
+        let k: Vec<u16> = ["esc", "1", "2", "3", "z"].iter().map(|x| code(x)).collect();
+        for (rb0, rb1) in [("first-release", "all-released"), ("all-released", "first-release")] {
+            let cfg = format!("(defcfg concurrent-tap-hold yes)\n(defsrc esc 1 2 3 z)\n(defvirtualkeys v0 f13 v1 f14 v2 f15 v3 f16 v4 f17)\n(deflayer l0 esc 1 2 3 z)\n(defchordsv2 (1 2) 7 30 {rb0} () (esc 3) 8 30 {rb1} ())\n");
+            for (x, y) in [(1usize, 2usize), (0, 3)] {
+                for after in [1u32, 2, 4, 9] {
+                    for vs in [vec![0u16], vec![1], vec![2], vec![3], vec![4], vec![1, 2], vec![2, 1], vec![1, 4], vec![4, 1, 2, 3]] {
+                        if !thorough && after == 9 && vs.len() == 1 {
+                            continue;
+                        }
+                        let mut h = vec![HEv::Press(0, k[x]), HEv::Press(0, k[y]), HEv::Tick(20)];
+                        h.push(HEv::Press(0, k[4])); // no chord starts with z: the cool-down begins
+                        h.push(HEv::Tick(after));
+                        for v in &vs {
+                            h.push(HEv::Press(1, *v));
+                            h.push(HEv::Release(1, *v));
+                        }
+                        h.push(HEv::Tick(40));
+                        h.push(HEv::Release(0, k[4]));
+                        h.push(HEv::Tick(20));
+                        h.push(HEv::Release(0, k[y]));
+                        h.push(HEv::Tick(5));
+                        h.push(HEv::Release(0, k[x]));
+                        h.push(HEv::Tick(400));
+                        lines.push(mk_line("LAY", false, &cfg, &h));
+                    }
+                }
+            }
+        }
+    }
+    // (R3) a key that is no participant of the completed chord is pressed AND released between the
+    // same two ticks as the chord's keys (`process_presses`: `relevant_release_found` is about any
+    // pressed key, `get_active_chord` used it as "a participant was released")
+    for fr in [u32::MAX, 0, 0b01] {
+        let t = Table { n: 4, masks: vec![0b0011, 0b1100, 0b0111], timeout: 30 };
+        let cfg = v2_cfg(&t, fr, 0, if fr == 0 { Some(0) } else { None }, None);
+        for other in [5usize, 3, 2] {
+            for pos in 0..3usize {
+                for tap_gap in [0u32, 1] {
+                    for hold in [30u32, 100] {
+                        // other == 2 completes (a b c) when it comes before the timeout: kept, the
+                        // oracle's clause is per chord
+                        let mut h = vec![];
+                        let mut ks = vec![codes[0], codes[1]];
+                        ks.insert(pos.min(2), codes[other]);
+                        for k in &ks {
+                            h.push(HEv::Press(0, *k));
+                        }
+                        if tap_gap > 0 {
+                            h.push(HEv::Tick(tap_gap));
+                        }
+                        h.push(HEv::Release(0, codes[other]));
+                        h.push(HEv::Tick(hold));
+                        h.push(HEv::Release(0, codes[0]));
+                        h.push(HEv::Tick(3));
+                        h.push(HEv::Release(0, codes[1]));
+                        h.push(HEv::Tick(400));
+                        lines.push(mk_line("LAY", false, &cfg, &h));
+                    }
+                }
+            }
+        }
+    }
+    // (R4) long timeouts: the "nothing changed" fast path of `drain_inputs` counts down
+    // `ticks_until_next_state_change` (up to the chord's timeout) - releases that arrive while it does
+    // must still be seen at once. With the timeouts <= 50 of the other families a delayed release stays
+    // inside the oracle's latency bound.
+    for timeout in [200u32, 500] {
+        for (ti, masks) in [vec![0b011u32], vec![0b011, 0b111], vec![0b011, 0b110]].into_iter().enumerate() {
+            let t = Table { n: 3, masks, timeout };
+            for fr in [0u32, u32::MAX] {
+                let cfg = v2_cfg(&t, fr, 0, if ti == 1 { Some(0) } else { None }, None);
+                for order in [[0usize, 1], [1, 0]] {
+                    for span in [0u32, 1, 10, 60] {
+                        for hold in [0u32, 1, 7] {
+                            for rgap in [0u32, 2] {
+                                if !thorough && (span == 60 || hold == 7) && rgap == 2 {
+                                    continue;
+                                }
+                                let tm = Timing { span, form: 0, hold, rgap };
+                                lines.push(mk_line("LAY", false, &cfg, &clean_history(codes, &order, &order, tm, None)));
+                            }
+                        }
+                    }
+                }
+                for _ in 0..(if thorough { 60 } else { 8 }) {
+                    let n_ev = r.range(4, 14) as usize;
+                    let h = consistent_history(r, &codes[..4], n_ev, &[0, 0, 1, 1, 2, 10, 40], 900);
+                    lines.push(mk_line("LAY", false, &cfg, &h));
+                }
+            }
+        }
+    }
+}
+/// chords v1 as the configuration spells them out (judged by the runner's source-level oracle,
+/// runner/props.py `_c09_src_oracle`): a `(chord g k)` inside the hold slot of a tap-hold
+/// (parser `fill_chords`), and one physical key naming DIFFERENT chord keys on different layers
+/// (`ChordsGroup::get_keys` looks the coordinate up in one table shared by all layers)
+fn v1_source_families(thorough: bool, lines: &mut Vec<String>) {
+    let (a, b, c) = (code("a"), code("b"), code("c"));
+    let table = "(defchords g 15 (k1) y (k2) z (k1 k2) 1)";
+    // (R5) wrapped chord keys
+    for th in ["tap-hold", "tap-hold-release"] {
+        for (hold, tapt) in [(20u32, 20u32), (40, 0)] {
+            let cfg = format!("(defcfg)\n(defsrc a b c)\n(deflayer l0 ({th} {tapt} {hold} x (chord g k1)) (chord g k2) c)\n{table}\n");
+            for wait in [hold + 15 + 20, 200] {
+                lines.push(mk_line("LAY", false, &cfg, &[HEv::Press(0, a), HEv::Tick(wait), HEv::Release(0, a), HEv::Tick(400)]));
+            }
+            lines.push(mk_line("LAY", false, &cfg, &[HEv::Press(0, b), HEv::Tick(60), HEv::Release(0, b), HEv::Tick(400)]));
+        }
+    }
+    // (R6) the same key is another chord key on the second layer
+    for lk in ["layer-switch", "layer-while-held"] {
+        for (c0a, c0b, c1a, c1b) in [("k1", "k2", "k2", "k1"), ("k1", "k2", "k1", "k2"), ("k2", "k1", "k1", "k2")] {
+            let cfg = format!("(defcfg)\n(defsrc a b c)\n(deflayer l0 (chord g {c0a}) (chord g {c0b}) ({lk} l2))\n(deflayer l2 (chord g {c1a}) (chord g {c1b}) c)\n{table}\n");
+            let sets: [&[u16]; 4] = [&[a], &[b], &[a, b], &[b, a]];
+            for ps in sets {
+                for on_l2 in [false, true] {
+                    for hold in [40u32, 90] {
+                        if !thorough && hold == 90 && ps.len() == 2 {
+                            continue;
+                        }
+                        let mut h = vec![];
+                        if on_l2 {
+                            h.push(HEv::Press(0, c));
+                            h.push(HEv::Tick(10));
+                            if lk == "layer-switch" {
+                                h.push(HEv::Release(0, c));
+                                h.push(HEv::Tick(10));
+                            }
+                        }
+                        for p in ps {
+                            h.push(HEv::Press(0, *p));
+                        }
+                        h.push(HEv::Tick(hold));
+                        for p in ps {
+                            h.push(HEv::Release(0, *p));
+                            h.push(HEv::Tick(2));
+                        }
+                        if on_l2 && lk == "layer-while-held" {
+                            h.push(HEv::Release(0, c));
+                        }
+                        h.push(HEv::Tick(400));
+                        lines.push(mk_line("LAY", false, &cfg, &h));
+                    }
+                }
+            }
+        }
+    }
+}
+// END t3
+
 pub fn gen(tier: &str, seed: u64) -> Vec<String> {
     let mut r = Rng::new(seed ^ 0xC09);
     let thorough = tier == "thorough";
@@ -774,5 +960,7 @@ pub fn gen(tier: &str, seed: u64) -> Vec<String> {
         lines.push(mk_line("LAY", false, &cfg, &h));
     }
     cov_families(&mut r, thorough, &codes, &mut lines);
+    release_rule_families(&mut r, thorough, &codes, &mut lines); // t3
+    v1_source_families(thorough, &mut lines); // t3
     lines
 }
